@@ -8,6 +8,58 @@ LEVEL = 'proof'
 
 
 FORM = [0]
+KINDS_OF_BUILD = {1: 'add_node then add_edge calls', 2: 'add_edge calls then add_node', 3: 'iterators', 4: 'tuple / zip', 5: 'list / generator'}
+
+
+def parts(comps):
+    """a sequence of components as a multiset of (node set, length): order-free, works for nodes that cannot be sorted"""
+    h = {}
+    for c in comps:
+        k = (frozenset(c), len(c))
+        h[k] = h.get(k, 0) + 1
+    return h
+
+
+def observe_sccs(G):
+    """compute_SCCs(G) the way callers use it.  Returns (r, notes): r = ('ok', the components, each COPIED at the moment it
+    was yielded) or ('err', enum); notes = what is wrong with the objects that were handed out:
+    * the yielded objects are kept while the generator advances and looked at again after it finished (a recycled buffer),
+    * list(compute_SCCs(G)) taken as a whole must be the same components,
+    * the components belong to the caller: emptying / extending them changes neither G nor what the next evaluation gives."""
+    from pyModelChecking.graph import compute_SCCs
+
+    def first():
+        held, copies = [], []
+        for c in compute_SCCs(G):
+            held.append(c)
+            copies.append(list(c))
+        return held, copies
+    r = call(first)
+    if r[0] != 'ok':
+        return r, []
+    held, copies = r[1]
+    notes = []
+    now = [list(c) for c in held]
+    if now != copies:
+        notes.append('components changed after they were yielded: collected and read after the generator finished %r, copied at yield time %r' % (now, copies))
+    if len(set(map(id, held))) != len(held):
+        notes.append('one object is yielded for several components')
+    w = call(lambda: list(compute_SCCs(G)))
+    if w[0] != 'ok':
+        notes.append('list(compute_SCCs(G)) raised %s' % w[1])
+    elif parts(w[1]) != parts(copies):
+        notes.append('list(compute_SCCs(G)) taken as a whole is %r' % (w[1],))
+    for c in held:                                        # the caller consumes / edits what it was given
+        if hasattr(c, 'append'):
+            del c[:]
+            c.append(('edited', 'component'))
+        elif hasattr(c, 'add'):
+            c.clear()
+            c.add(('edited', 'component'))
+    again = call(lambda: [list(c) for c in compute_SCCs(G)])
+    if again[0] != 'ok' or parts(again[1]) != parts(copies):
+        notes.append('after the caller edited the components it had been given, compute_SCCs gives %r' % (again[1],))
+    return ('ok', copies), notes
 
 
 def one_case(V, E, form=None):
@@ -46,14 +98,14 @@ def one_case(V, E, form=None):
         return G
     built = call(construct)
     if built[0] != 'ok':
-        return DiGraph(), ('err', 'other:building (V, E) through %s raised %s' % ({1: 'add_node then add_edge calls', 2: 'add_edge calls then add_node', 3: 'iterators', 4: 'tuple / zip', 5: 'list / generator'}.get(k, 'lists'), built[1])), True
+        return DiGraph(), ('err', 'other:building (V, E) through %s raised %s' % (KINDS_OF_BUILD.get(k, 'lists'), built[1])), True, []
     G = built[1]
     if set(G._next) != set(V) | {x for e in E for x in e} or {(a, b) for a, ds in G._next.items() for b in ds} != {tuple(e) for e in E}:
-        return G, ('err', 'other:the DiGraph built from (V, E) given as %s is not the graph (V, E)' % {1: 'add_node then add_edge calls', 2: 'add_edge calls then add_node', 3: 'iterators', 4: 'tuple / zip', 5: 'list / generator'}.get(k, 'lists')), True
+        return G, ('err', 'other:the DiGraph built from (V, E) given as %s is not the graph (V, E)' % KINDS_OF_BUILD.get(k, 'lists')), True, []
     before = repr(sorted((repr(k), sorted(map(repr, v))) for k, v in G._next.items()))
-    r = call(lambda: [list(c) for c in compute_SCCs(G)])
+    r, notes = observe_sccs(G)
     after = repr(sorted((repr(k), sorted(map(repr, v))) for k, v in G._next.items()))
-    return G, r, before == after
+    return G, r, before == after, notes
 
 
 def run_large(R):
@@ -80,7 +132,17 @@ def run_large(R):
 def run(R):
     R.rule = ('digraphs over nodes 0..n-1 given as (node insertion order, edge list); exhaustive for n<=3 '
               '(+ every 7th 4-node graph in quick, all 65536 in thorough) under 3 insertion orders, random n<=12; '
-              'non-trivial = at least one component with >= 2 nodes and at least 2 components; distinct by (order, edge set)')
+              'non-trivial = at least one component with >= 2 nodes and at least 2 components; distinct by (order, edge set). '
+              'Every evaluation keeps the YIELDED OBJECTS while the generator advances and reads them again after it finished '
+              '(against the copies taken at yield time), takes list(compute_SCCs(G)) as a whole, then edits the components it '
+              'was given and evaluates again. Stream "renamed nodes": the graph is renamed through a bijection index -> object '
+              '(families: None and falsy values; mutually unorderable ints / strings / tuples / bytes / floats / objects; distinct '
+              'nodes with equal str(), 1 next to \'1\'; distinct objects with equal repr() or colliding hash()), all graphs with <= 3 '
+              'nodes (<= 2 in quick: all, 3: every 3rd) and random n <= 7, components mapped back through the bijection and '
+              'compared with the model on the index graph. Stream "histories": compute -> edit -> compute on several objects: '
+              'add_edge between existing nodes / to new nodes, add_node, failing duplicates, clone / reversed / subgraph (work '
+              'continues on the derived object or on the original); after EVERY step compute_SCCs of EVERY object of the history '
+              'is compared with the model on that object\'s current presentation')
     rng = R.rng
     run_large(R)
     cases = []
@@ -108,17 +170,21 @@ def run(R):
         cases.append((V, rand_digraph(rng, n)))
     cmds, meta = [], []
     for (V, E) in cases:
-        G, r, unchanged = one_case(V, E)
-        meta.append((V, E, r, unchanged, FORM[-1]))
+        G, r, unchanged, notes = one_case(V, E)
+        meta.append((V, E, r, unchanged, FORM[-1], notes))
         cmds.append(['scc', graph_sx(G)])
     outs = model_batch_parallel(cmds)
     order_agree = 0
-    for (V, E, r, unchanged, form), o in zip(meta, outs):
+    for (V, E, r, unchanged, form, notes), o in zip(meta, outs):
         R.evaluations += 1
         model_part = set(frozenset(ints(c)) for c in o)
         model_seq = [ints(c) for c in o]
         if r[0] != 'ok':
             R.violation('compute_SCCs raised %s' % r[1], {'V': V, 'E': E, 'impl': r, 'argument_form': form})
+            continue
+        if notes:
+            R.violation('the components handed out by compute_SCCs are not the exact partition for the caller who keeps them: ' + '; '.join(notes),
+                        {'V': V, 'E': E, 'argument_form': form, 'impl': r[1], 'model': model_seq, 'handed_out': notes})
             continue
         impl_seq = r[1]
         flat = [x for c in impl_seq for x in c]
@@ -136,8 +202,148 @@ def run(R):
             R.nontriv((tuple(V), tuple(sorted(E))))
             R.sample({"V": V, "E": E, "components": impl_seq})
     R.cov['internal_agreement'] = {'yield_sequence_identical': order_agree, 'of': R.evaluations}
-    R.cov['distribution'] = {'n_nodes_hist': _hist(len(set(V) | {x for e in E for x in e}) for V, E, _, _, _ in meta)}
+    R.cov['distribution'] = {'n_nodes_hist': _hist(len(set(V) | {x for e in E for x in e}) for V, E, _, _, _, _ in meta)}
+    run_renamed(R)
+    run_chains(R)
     R.exhaustive = R.thorough
+
+
+def renamed_case(family, picks, V, E):
+    """(V, E) over indices; the library sees the renamed graph; observations come back in index space"""
+    from pyModelChecking.graph import DiGraph
+    objs = node_objects(family, picks)
+    num = index_of(objs)
+    built = call(lambda: DiGraph(V=[objs[i] for i in V], E=[(objs[a], objs[b]) for a, b in E]))
+    if built[0] != 'ok':
+        return None, ('err', 'other:DiGraph(V, E) raised %s' % built[1]), True, [], objs
+    G = built[1]
+    before = [[num(k), sorted((num(d) for d in ds), key=str)] for k, ds in G._next.items()]
+    r, notes = observe_sccs(G)
+    after = [[num(k), sorted((num(d) for d in ds), key=str)] for k, ds in G._next.items()]
+    g = graph_sx(G, num)
+    if r[0] == 'ok':
+        r = ('ok', [[num(x) for x in c] for c in r[1]])
+    return g, r, before == after, notes, objs
+
+
+def renamed_bad(g, r, unchanged, notes, o):
+    """what is wrong with one renamed evaluation (empty = agrees with the model)"""
+    if r[0] != 'ok':
+        return ['compute_SCCs raised %s' % r[1]]
+    flat = [x for c in r[1] for x in c]
+    bad = []
+    if any(not isinstance(x, int) for x in flat):
+        bad.append('a component contains an object that is not a node of G')
+    elif len(flat) != len(set(flat)) or set(frozenset(c) for c in r[1]) != set(frozenset(ints(c)) for c in o):
+        bad.append('partition differs from the proved model')
+    if not unchanged:
+        bad.append('G modified')
+    return bad + list(notes)
+
+
+def run_renamed(R):
+    rng = random.Random(R.seed + 12)
+    cases = []
+    j = 0
+    for family in sorted(NODE_FAMILIES):
+        for n in range(1, 4):
+            for E in all_digraphs(n):
+                j += 1
+                if n == 3 and not R.thorough and j % 3:
+                    continue
+                V = list(range(n))
+                if j % 2:
+                    V.reverse()
+                cases.append((family, rotated_picks(family, n, j), V, E))
+        for _ in range(3000 if R.thorough else 260):
+            n = rng.randint(2, 7)
+            V = list(range(n))
+            rng.shuffle(V)
+            E = rand_digraph(rng, n)
+            rng.shuffle(E)
+            cases.append((family, rand_picks(rng, family, n), V, E))
+    cmds, meta = [], []
+    for (family, picks, V, E) in cases:
+        g, r, unchanged, notes, objs = renamed_case(family, picks, V, E)
+        if g is None or not ints_only(g):
+            R.evaluations += 1
+            R.violation('a graph over non-int node objects (%s) cannot be built / read back: %s' % (family, r[1] if g is None else g),
+                        {'stream': 'renamed nodes', 'family': family, 'picks': picks, 'V': V, 'E': E, 'nodes': list(map(repr, objs))})
+            continue
+        cmds.append(['scc', g])
+        meta.append((family, picks, V, E, g, r, unchanged, notes, objs))
+    outs = model_batch_parallel(cmds)
+    hist = {}
+    for (family, picks, V, E, g, r, unchanged, notes, objs), o in zip(meta, outs):
+        R.evaluations += 1
+        bad = renamed_bad(g, r, unchanged, notes, o)
+        if bad:
+            R.violation('compute_SCCs on a graph whose nodes are not ints (%s): %s' % (family, '; '.join(bad)),
+                        {'stream': 'renamed nodes', 'family': family, 'picks': picks, 'V': V, 'E': E, 'nodes': list(map(repr, objs)),
+                         'impl_in_indices': r, 'model': [ints(c) for c in o], 'differs': bad})
+            continue
+        hist[family] = hist.get(family, 0) + 1
+        if len(o) >= 2 and any(len(c) >= 2 for c in o):
+            R.nontriv(('renamed', family, tuple(map(tuple, picks)), tuple(V), tuple(sorted(E))))
+    R.cov['renamed_node_families'] = hist
+
+
+def chain_observer(log):
+    def observe(G, i):
+        before = repr(sorted((repr(k), sorted(map(repr, v))) for k, v in G._next.items()))
+        r, notes = observe_sccs(G)
+        after = repr(sorted((repr(k), sorted(map(repr, v))) for k, v in G._next.items()))
+        return {'sccs': list(r), 'notes': notes, 'unchanged': before == after}
+    return observe
+
+
+def chain_check(R, chain, steps, shared, model):
+    """compare every observation of one history with the model on the presentation of the observed object at that moment;
+    model: presentation -> model components.  Returns the description of the first disagreement (None = agrees)"""
+    for k, st in enumerate(steps):
+        for (i, p, ob) in st['obs']:
+            if not ints_only(p):
+                return 'after step %d object %d is no longer a graph over the nodes it was given: %r' % (k, i, p)
+            o = model(p)
+            r = ob['sccs']
+            bad = renamed_bad(p, r, ob['unchanged'], ob['notes'], o)
+            if bad:
+                return ('after step %d (%s applied to object %d: %s) compute_SCCs of object %d (now %r): %s; impl %r, model %r'
+                        % (k, st['op'], st['target'], st['outcome'], i, p, '; '.join(bad), r[1], [ints(c) for c in o]))
+    return None
+
+
+def run_chains(R, only=None):
+    rng = random.Random(R.seed + 1212)
+    chains = [only] if only else [rand_chain(rng, nmax=5, kmax=5) for _ in range(4000 if R.thorough else 450)]
+    runs = []
+    cmds, where = [], {}
+    for ch in chains:
+        steps, shared, _ = exec_chain(ch, chain_observer(None), call)
+        runs.append((ch, steps, shared))
+        for st in steps:
+            for (i, p, ob) in st['obs']:
+                if ints_only(p):
+                    key = sx_str(p)
+                    if key not in where:
+                        where[key] = len(cmds)
+                        cmds.append(['scc', p])
+    outs = model_batch_parallel(cmds)
+    kinds = {}
+    first = None
+    for ch, steps, shared in runs:
+        R.evaluations += sum(len(st['obs']) for st in steps)
+        what = chain_check(R, ch, steps, shared, lambda p: outs[where[sx_str(p)]])
+        if what:
+            R.violation('compute -> edit -> compute: ' + what, {'stream': 'histories', 'chain': ch, 'disagreement': what})
+            first = first or what
+            continue
+        for st in steps:
+            kinds[st['op'][0]] = kinds.get(st['op'][0], 0) + 1
+        if any(st['op'][0] == 'edge' and st['outcome'] == 'ok' for st in steps):
+            R.nontriv(('history', json.dumps(ch, sort_keys=True)))
+    R.cov['histories'] = {'histories': len(chains), 'steps_by_kind': kinds, 'distinct_model_evaluations': len(cmds)}
+    return first
 
 
 def _hist(it):
@@ -154,10 +360,28 @@ def replay(R, data):
         run_large(R)
         print('large graphs re-run: %d violation(s)' % (len(R.violations) - n0))
         return
-    G, r, unchanged = one_case(d['V'], [tuple(e) for e in d['E']], form=d.get('argument_form', 0))
+    if d.get('stream') == 'renamed nodes':
+        g, r, unchanged, notes, objs = renamed_case(d['family'], d['picks'], d['V'], [tuple(e) for e in d['E']])
+        print('nodes:', objs)
+        print('impl (indices):', r, '| G unchanged:', unchanged, '| handed-out objects:', notes or 'fine')
+        if g is None or not ints_only(g):
+            R.violation('replayed', d)
+            return
+        o = model_batch([['scc', g]])[0]
+        print('model:', [ints(c) for c in o])
+        if renamed_bad(g, r, unchanged, notes, o):
+            R.violation('replayed', d)
+        return
+    if d.get('stream') == 'histories':
+        what = run_chains(R, only=d['chain'])
+        print('history:', d['chain'])
+        print('disagreement:', what or 'none')
+        return
+    G, r, unchanged, notes = one_case(d['V'], [tuple(e) for e in d['E']], form=d.get('argument_form', 0))
     o = model_batch([['scc', graph_sx(G)]])[0]
     print('impl :', r)
+    print('handed-out objects:', notes or 'fine')
     print('model:', [ints(c) for c in o])
     print('oracle:', sorted(sorted(c) for c in oracle_sccs(set(d['V']) | {x for e in d['E'] for x in e}, [tuple(e) for e in d['E']])))
-    if r[0] != 'ok' or set(frozenset(c) for c in r[1]) != set(frozenset(ints(c)) for c in o) or not unchanged:
+    if r[0] != 'ok' or set(frozenset(c) for c in r[1]) != set(frozenset(ints(c)) for c in o) or not unchanged or notes:
         R.violation('replayed', d)
